@@ -21,6 +21,7 @@ REQUIRED_MONITORS = ["compute_vote_vectors", "majority_vote", "ext_confusion_mat
 ENC = {
     "nan": (np.nan, float, lambda k: float(k)),
     "int": (-1, int, lambda k: 10 * (k + 1)),
+    "intf": (-1.0, int, lambda k: 10 * (k + 1)),        # integer labels, the sentinel written as a float
     "objnum": (None, object, lambda k: k + 1),
     "objstr": (None, object, lambda k: "abcd"[k]),
     "strzz": ("zz", "<U2", lambda k: "abcd"[k]),
@@ -203,6 +204,13 @@ def run_case(desc):
                         classes=cls_arg, missing_label=ml, random_state=int(desc["seed"] % 1000))
         y_true = np.array([classes[rng.randint(K)] for _ in range(n)], dtype=dt)
         U.ext_confusion_matrix(y_true, Ya, classes=cls_arg, missing_label=ml, normalize=desc["normalize"])
+        # the caller keeps using its arrays (e.g. the same weight matrix while the label matrix fills up)
+        Y0 = Y[:, 0] if one_d else Y
+        W0 = None if W is None else (W[:, 0] if one_d else W)
+        if not all(_eq(u, v) for u, v in zip(np.asarray(Ya).ravel().tolist(), np.asarray(Y0).ravel().tolist())):
+            viol.append({"component": "aggregation", "kind": "input-modified:y", "detail": "enc=%s" % desc["enc"]})
+        if W0 is not None and not np.array_equal(Wa, W0, equal_nan=True):
+            viol.append({"component": "aggregation", "kind": "input-modified:w", "detail": "w before %r after %r" % (np.asarray(W0).tolist(), np.asarray(Wa).tolist())})
     except Exception as ex:
         viol.append({"component": "aggregation", "kind": "exception:%s" % type(ex).__name__,
                      "detail": "enc=%s Y=%r W=%r classes=%r: %s" % (desc["enc"], Y.tolist(), None if W is None else W.tolist(), cls_arg, str(ex)[:150])})
